@@ -10,6 +10,7 @@ import (
 	"strings"
 	"sync"
 	"sync/atomic"
+	"time"
 
 	"github.com/jsightapi/jsight-api-go-library/core"
 	"github.com/jsightapi/jsight-api-go-library/directive"
@@ -126,6 +127,42 @@ func CleanupScratch() {
 }
 
 var scratchMu sync.Mutex
+
+// library calls in flight (for the hang watchdog: a hang is a single call into
+// the library that does not return, not a case that makes many calls)
+var (
+	callMu    sync.Mutex
+	callSeq   int64
+	callsOpen = map[int64]time.Time{}
+)
+
+func callBegin() int64 {
+	callMu.Lock()
+	callSeq++
+	id := callSeq
+	callsOpen[id] = time.Now()
+	callMu.Unlock()
+	return id
+}
+
+func callEnd(id int64) {
+	callMu.Lock()
+	delete(callsOpen, id)
+	callMu.Unlock()
+}
+
+// OldestCall returns how long the oldest library call in flight has been running.
+func OldestCall() time.Duration {
+	callMu.Lock()
+	defer callMu.Unlock()
+	var d time.Duration
+	for _, t := range callsOpen {
+		if x := time.Since(t); x > d {
+			d = x
+		}
+	}
+	return d
+}
 
 // Materialise writes the project into a private directory and returns it. The
 // directory's name is the lowest p<N> that does not exist at the moment, so the
@@ -274,7 +311,11 @@ func RunSameObjectTwice(src string) (first, second Result) {
 		res.Title = j.Title()
 		return res
 	}
+	// the second pass goes through a copy of the JApi value taken before the
+	// first validation (kit.JApi is passed around by value)
+	copyBefore := j
 	first = pass()
+	j = copyBefore
 	second = pass()
 	return first, second
 }
@@ -320,6 +361,7 @@ func RunShared(f *fs.File, opts ...core.Option) (res Result, raw, rawIndent []by
 }
 
 func runRaw(p Project, dir string, opts []core.Option, shared *fs.File) (res Result, raw, rawIndent []byte) {
+	defer callEnd(callBegin())
 	stage := "new"
 	defer func() {
 		if r := recover(); r != nil {
